@@ -6,7 +6,7 @@ together: every step must (a) give the acting client exactly delta_i's output an
 own per-client state, (b) name no other client, (c) leave every other client's part of the state untouched.
 Because the product search closes, this decides every interleaving of every pair of histories over the
 alphabet, of any length."""
-import time
+import os, time
 from . import pcommon
 from .. import common, build, psearch, alpha, e1, proto
 
@@ -87,6 +87,8 @@ def main(tier):
         if n < 50 and not run.violations:
             raise common.HarnessError('vacuous: only %d merged history pairs were compared' % n)
     sweep = pcommon.serial_sweep(run, ('C07.',)) if not run.out_of_time(40) else {}
+    if not run.out_of_time(40):
+        sweep.update(direct_differential(run, tier))
     cov = {'states': states, 'transitions': trans, 'traces_validated_against_impl': conf, 'samples': samples, 'exhaustive': complete,
            'searches': per, 'witnesses': sorted(witnesses), 'merged_history_pairs_compared': merge_pairs, **sweep,
            'explanation': 'differential oracle with no hand-written expectation: the solo automaton of each client is recorded from the implementation, then every step of the '
@@ -94,8 +96,103 @@ def main(tier):
     return run.finish(cov, assumptions=['per-client state projection (request record, xquery record, observer record) captures everything the daemon keeps per client',
                                         'service reference counts are not part of the projection (read only on reload, see C17)'])
 
+# ---- direct form of the statement, with reloads in the picture ------------------------------------------------------
+def interleavings(xs, ys):
+    """all merges of two sequences that keep each one's own order"""
+    if not xs:
+        yield list(ys); return
+    if not ys:
+        yield list(xs); return
+    for rest in interleavings(xs[1:], ys):
+        yield [xs[0]] + rest
+    for rest in interleavings(xs, ys[1:]):
+        yield [ys[0]] + rest
+
+
+def direct_differential(run, tier):
+    """Client 1's conversation (incl. reloads of the service table on its time line, MORE challenges and their answers) is run
+    alone and with every interleaving of a second client's traffic; everything written about client 1 must be the same up to
+    the serial in its tag.  Covers what the product search leaves out: reload events and challenge-response flows."""
+    b = build.build()
+    services = [('login.svc', 'login'), ('drone.svc', 'dronecheck')]
+    rules = pcommon.rules_for(services)
+    moddir = os.path.join(b, 'mods-wrapped')
+    conf = e1.conf_text(moddir, services=services, timeout=30, rules=rules)
+    files = {'none.conf': e1.conf_text(moddir, services=[('drone.svc', 'dronecheck')], timeout=30, rules=rules),
+             'orig.conf': conf,
+             'other.conf': e1.conf_text(moddir, services=[('drone.svc', 'dronecheck'), ('ghost.svc', 'login')], timeout=30, rules=rules)}
+    X = {
+        'more-answer-after-removal': [('C', 1), ('P', 1, 'x'), ('X', 1, 'login.svc', 'cur', 'MORE'), ('RL', 'none.conf'), ('P', 1, 'x'), ('H', 1), ('X', 1, 'drone.svc', 'cur', 'OK')],
+        'bang-more-answer-removal-readd': [('C', 1), ('H', 1), ('P', 1, 'bang'), ('X', 1, 'login.svc', 'cur', 'MORE'), ('P', 1, 'x'), ('RL', 'none.conf'), ('RL', 'other.conf'),
+                                           ('X', 1, 'ghost.svc', 'cur', 'OKA'), ('X', 1, 'login.svc', 'cur', 'OKA'), ('X', 1, 'drone.svc', 'cur', 'OK')],
+        'reload-twice-then-login': [('C', 1), ('P', 1, 'x'), ('RL', 'none.conf'), ('RL', 'orig.conf'), ('H', 1), ('X', 1, 'login.svc', 'cur', 'OKA'), ('X', 1, 'drone.svc', 'cur', 'OK')],
+        'plain-more-round': [('C', 1), ('H', 1), ('P', 1, 'x'), ('X', 1, 'login.svc', 'cur', 'MORE'), ('P', 1, 'nobang'), ('X', 1, 'login.svc', 'cur', 'OKA'), ('X', 1, 'drone.svc', 'cur', 'NO')],
+    }
+    Y = {
+        'pending-login': [('C', 2), ('P', 2, 'x')],
+        'answered-login': [('C', 2), ('P', 2, 'x'), ('X', 2, 'login.svc', 'cur', 'OKA')],
+        'hurried': [('C', 2), ('H', 2)],
+        'challenged': [('C', 2), ('P', 2, 'bang'), ('X', 2, 'login.svc', 'cur', 'MORE')],
+        'gone': [('C', 2), ('P', 2, 'x'), ('D', 2)],
+    }
+    if tier == 'quick':
+        Y = {k: Y[k] for k in ('pending-login', 'answered-login', 'challenged')}
+
+    def concrete(srv, syms):
+        ctx = {'cur': {}, 'old': {}, 'serial': 0}
+        out = []
+        for ev in syms:
+            if ev[0] == 'RL':
+                out.append(('R', srv.path(ev[1])))
+                continue
+            out.append(proto.render(ev, ctx))
+            if ev[0] == 'C':
+                ctx['serial'] += 1
+                ctx['cur'][ev[1]] = ctx['serial']
+            elif ev[0] in ('D', 'T'):
+                ctx['cur'].pop(ev[1], None)
+        return out
+
+    def about1(res, syms):
+        """per step of client 1's own events (and reloads): the lines naming client 1 or carrying its tag"""
+        rec = []
+        for ev, r in zip(syms, res):
+            mine = [psearch._norm_line(l) for l in r.out if (l.startswith('X ') and l.split(' ')[2].split('_')[0] == '1') or (len(l.split(' ')) > 1 and l.split(' ')[1] == '1' and l[0] in proto.CLIENT_CMDS)]
+            if ev[0] == 'RL' or (len(ev) > 1 and ev[1] == 1):
+                rec.append((proto.ev_str(ev), tuple(mine)))
+            elif mine:
+                rec.append(('!during %s' % proto.ev_str(ev), tuple(mine)))
+        return rec
+
+    n = 0
+    with e1.Server(conf, builddir=b, files=files) as srv:
+        for xn, xs in X.items():
+            res, status, err, ex = srv.trace(concrete(srv, xs), 0)
+            if status != 'ok':
+                raise common.HarnessError('direct differential: baseline %s died: %s' % (xn, status))
+            base = about1(res, xs)
+            if not any(l for _, ls in base for l in ls):
+                raise common.HarnessError('direct differential: baseline %s wrote nothing about client 1' % xn)
+            for yn, ys in Y.items():
+                for mix in interleavings(xs, ys):
+                    if mix[0][1] != 1 and tier == 'quick' and n % 2:
+                        pass
+                    res, status, err, ex = srv.trace(concrete(srv, mix), 0)
+                    n += 1
+                    got = about1(res, mix) if status == 'ok' else status
+                    if got != base:
+                        k = next((i for i in range(min(len(got), len(base))) if got[i] != base[i]), None) if isinstance(got, list) else None
+                        run.violation('C07.interleaving', 'client 1 (%s) with client 2 (%s) interleaved as [%s]: %s; alone: %s'
+                                      % (xn, yn, ' | '.join(proto.ev_str(e) for e in mix), got[k] if k is not None else got, base[k] if k is not None else base),
+                                      {'engine': 'E1-direct', 'conf': conf, 'x': xn, 'y': yn, 'mix': [list(e) for e in mix]}, dedup='direct|%s|%s' % (xn, yn))
+    return {'direct_differential_traces': n, 'direct_differential_histories': {'client1': list(X), 'client2': list(Y)}}
+
+
 def replay(obj):
     r = obj['replay']
+    if r.get('engine') == 'E1-direct':
+        print(obj['what']); print('re-run: bin/check C07 quick (deterministic enumeration)')
+        return 1
     if r.get('engine') == 'E1-merge':
         b = build.build()
         outs = []
